@@ -171,8 +171,8 @@ type cmdResult struct {
 	err     error
 	aborted bool // the command never returned (deadlock); err is set to errDeadlock
 	panics  []string
-	out    string // contents of the text-out file
-	now    int64  // clock when the command started
+	out     string // contents of the text-out file
+	now     int64  // clock when the command started
 }
 
 const simURL = "http://sim"
@@ -390,10 +390,11 @@ func (l Layout) wtListFilled() wt.ArchiveInfoList {
 
 // cliRunner executes commands as actors of one scheduler.
 type cliRunner struct {
-	e      *Env
-	s      *Sched
-	srv    *simServer
-	remote bool
+	expectAbort bool // the run injects a process death: an aborted command is expected
+	e           *Env
+	s           *Sched
+	srv         *simServer
+	remote      bool
 }
 
 func newCliRunner(e *Env, schedSeed uint64, preemptP float64, remote bool) *cliRunner {
@@ -430,6 +431,7 @@ func (r *cliRunner) close() {
 func (r *cliRunner) run(cmds []Cmd, tags []string) []*cmdResult {
 	res := make([]*cmdResult, len(cmds))
 	now := Now()
+	r.e.Stats.Ops += int64(len(cmds))
 	for i := range cmds {
 		i := i
 		res[i] = &cmdResult{now: now}
@@ -482,7 +484,7 @@ func (r *cliRunner) run(cmds []Cmd, tags []string) []*cmdResult {
 		syscall.Flock(fd, syscall.LOCK_UN)
 	}
 	for i := range res {
-		if res[i].aborted {
+		if res[i].aborted && !r.expectAbort {
 			r.e.Skip("command-did-not-terminate")
 		}
 	}
